@@ -138,6 +138,7 @@ def run(ctx, chk):
     chk.rule("C18.R4", "frame: only AL (and the 0Ah buffer) changes", floor=20)
     chk.rule("C18.R5", "services address memory through the documented registers", floor=3)
     chk.rule("C18.R6", "interrupt numbers agree between assembler, interpreter and driver", floor=2)
+    chk.rule("C18.R8", "whenever the read succeeds (end of input included) AH=1 defines AL and AH=0Ah defines the count byte", floor=2)
     chk.rule("C18.R7", "machine bytes are written as the characters with their codes (`byte as char`), never decoded or printed as numbers", floor=2)
     chk.assumptions += ["read_line appends at most one line to the buffer and returns its byte count",
                         "register values are arbitrary 16-bit words; stdin content is arbitrary"]
@@ -531,3 +532,59 @@ def written_characters_rule(ctx, chk, fns):
                                   witness="memory bytes C3 A9 are written as one character U+00E9; a lone E9 as U+FFFD")
                 else:
                     chk.undecided_("C18.R7", unit, f"formatted value of type {ty} whose origin is not a visible `byte as char`: {show(core)[:80]}")
+    successful_read_rule(ctx, chk, fns)
+
+
+def successful_read_rule(ctx, chk, fns):
+    """R8.  Partition "read_line returned Ok" (whatever the count, so end of input = Ok(0) is inside): AH=1 must leave an
+    AL that does not depend on the old AX at all (the first input byte, or 0 at end of input), AH=0Ah must have written
+    the count byte DS:DX+1 on every path (its final value may not depend on the cell's previous content).  Only a
+    failing read (Err) may leave them as they were."""
+    P = ctx.program
+    f = fns.get("int_21")
+    if f is None:
+        return
+    where = file_of(f)
+    ai = arch_index(P)
+    for ah in (0x01, 0x0A):
+        I = Interp(P)
+        I.assume_read_ok = True
+        st = machine_state(I, P)
+        st.frames[0]["$stored"] = IntV.const("bool", 0)
+        unit = f"int_21:AH={ah:02X}h[read ok]"
+        try:
+            I.run_fn(f, [RefV((0, "vm", ())), IntV.const("u8", ah)], st)
+        except Unsupported as e:
+            chk.undecided_("C18.R8", unit, str(e))
+            continue
+        if st.dead:
+            chk.undecided_("C18.R8", unit, "no returning path")
+            continue
+        vm = st.frames[0]["vm"]
+        mem = st.frames[0]["mem"]
+        ax = vm.fields[0].fields[ai["ax"]]
+        if ah == 0x01:
+            old = set()
+            if ax.kind == "int":
+                for i in range(8):
+                    old |= {(a, b_) for a, b_ in bits_all_deps(ax.bits[i:i + 1]) if a == "ax"}
+            if ax.kind != "int":
+                chk.undecided_("C18.R8", unit, "AX not tracked")
+            elif old:
+                chk.violation("C18.R8", "int_21", "al-stale-after-successful-read",
+                              "AH=1: on a path where reading succeeded AL still depends on its previous value: some successful read (end of input returns Ok(0)) "
+                              "leaves AL as it was instead of storing the byte read / 0", where, witness="stdin at end of input, AL = 41h before the call")
+            else:
+                chk.ok("C18.R8", unit, "AL defined by the input alone")
+        else:
+            g = st.frames[0].get("$stored")
+            if g is None or g.kind != "int":
+                chk.undecided_("C18.R8", unit, "ghost not tracked")
+            elif g.is_const() and g.lo == 1:
+                chk.ok("C18.R8", unit, "every returning path of a successful read stores into the buffer (count byte)")
+            elif g.is_const() and g.lo == 0:
+                chk.violation("C18.R8", "int_21", "count-never-stored", "AH=0Ah never stores the count byte", where)
+            else:
+                chk.violation("C18.R8", "int_21", "count-stale-after-successful-read",
+                              "AH=0Ah: some path on which reading succeeded returns without storing anything into the buffer: at end of input (Ok(0)) "
+                              "the count byte at DS:DX+1 keeps the value of an earlier call", where, witness="stdin at end of input")
